@@ -401,6 +401,8 @@ class Runner:
         self.spec_viol = []  # (kind, idx, case, out)
         self.model_viol = []
         self.known_hits = {}
+        self.error = None
+        self._stop = False
         self.known_ids = {k["id"]: k for k in load_known() if k.get("property") == prop.id and k.get("kind") == "known"}
 
     def _map(self, items):
@@ -413,12 +415,34 @@ class Runner:
         else:
             if self.pool is None:
                 self.pool = mp.get_context("fork").Pool(self.workers, _worker_init, (self.modname,))
-            yield from self.pool.imap(_eval_one, items, chunksize=4)
+            # bounded batches: the input generator is only consumed as far as results are used
+            batch = []
+            for it in items:
+                batch.append(it)
+                if len(batch) >= self.workers * 8:
+                    yield from self.pool.map(_eval_one, batch, chunksize=2)
+                    batch = []
+            if batch:
+                yield from self.pool.map(_eval_one, batch, chunksize=2)
 
     def run(self, items, stop_after=5):
-        for kind, idx, case, out, err in self._map(items):
+        # early stop is done by ending the *input* stream, never by abandoning the pool iterator
+        # (breaking out of Pool.imap and terminating the pool can deadlock)
+        self._stop = False
+
+        def feed():
+            for it in items:
+                if self._stop:
+                    return
+                yield it
+
+        for kind, idx, case, out, err in self._map(feed()):
+            if self._stop:
+                continue
             if err:
-                raise InternalError(f"{kind}[{idx}]: {err}\ncase={canon(case)[:1500]}")
+                self._stop = True
+                self.error = f"{kind}[{idx}]: {err}\ncase={canon(case)[:1500]}"
+                continue
             self.evals += 1
             for f in out["features"]:
                 self.features[f] = self.features.get(f, 0) + 1
@@ -440,11 +464,14 @@ class Runner:
             elif not out["model_ok"]:
                 self.model_viol.append((kind, idx, case, out))
             if len(self.spec_viol) >= stop_after:
-                break
+                self._stop = True
+        if self.error:
+            raise InternalError(self.error)
 
     def close(self):
         if self.pool is not None:
-            self.pool.terminate()
+            self.pool.close()
+            self.pool.join()
             self.pool = None
         if _WORKER.get("ctx") is not None:
             _WORKER["ctx"].close()
